@@ -184,7 +184,38 @@ def path_sum_bruteforce(A, xs, limit=200000):
 
 
 def rel(T, x, y):
-    "weight of the pair (x, y): all accepting paths with input x and output y"
+    """weight of the pair (x, y): all accepting paths with input x and output y.
+    Layered over lattice positions (i, j): inside a layer only eps:eps arcs move, closed by one
+    n x n star; between layers the arcs consuming x_i and / or y_j."""
+    M, n = T.M, T.n
+    E = _mat(M, n, [(q, r, w) for q, a, b, r, w in T.arcs if a == EPS and b == EPS])
+    Es = lin.mat_star(M, E)
+    mats = {}
+    for q, a, b, r, w in T.arcs:
+        if a == EPS and b == EPS:
+            continue
+        mats.setdefault((a, b), lin.zeros(M, n))
+        mats[(a, b)][q][r] = M.add(mats[(a, b)][q][r], w)
+    X, Y = len(x), len(y)
+    v = {}
+    for i in range(X + 1):
+        for j in range(Y + 1):
+            acc = _vec(M, n, T.start) if (i, j) == (0, 0) else [M.zero] * n
+            for (di, dj) in ((1, 0), (0, 1), (1, 1)):
+                if i - di < 0 or j - dj < 0:
+                    continue
+                lab = (x[i - 1] if di else EPS, y[j - 1] if dj else EPS)
+                Mx = mats.get(lab)
+                if Mx is None:
+                    continue
+                u = lin.vec_mat(M, v[i - di, j - dj], Mx)
+                acc = [M.add(p, q) for p, q in zip(acc, u)]
+            v[i, j] = lin.vec_mat(M, acc, Es)
+    return lin.dot(M, v[X, Y], _vec(M, n, T.stop))
+
+
+def rel_lattice(T, x, y):
+    "same quantity by one big linear solve on the lattice graph (self-test cross-check of `rel`)"
     M, n = T.M, T.n
     X, Y = len(x) + 1, len(y) + 1
 
@@ -203,14 +234,12 @@ def rel(T, x, y):
                     continue
                 j2 = j + (b != EPS)
                 tri.append((node(q, i, j), node(r, i2, j2), w))
-    G = _mat(M, N, tri)
     alpha = [M.zero] * N
     beta = [M.zero] * N
     for q, w in T.start.items():
         alpha[node(q, 0, 0)] = w
     for q, w in T.stop.items():
         beta[node(q, len(x), len(y))] = w
-    # restrict to nodes reachable from the start nodes (keeps the linear solve small)
     keep = _reach(N, tri, [i for i, w in enumerate(alpha) if not M.is_zero(w)])
     idx = {v: k for k, v in enumerate(keep)}
     G2 = _mat(M, len(keep), [(idx[u], idx[v], w) for u, v, w in tri if u in idx and v in idx])
